@@ -84,6 +84,9 @@ def check(ctx):
                 kl("coh=1", o[2] * o[2] + o[3] * o[3], o[0] * o[1], "single segment: |XY|^2 = XX*YY (L3), i.e. coherence 1")
             except Unknown as ex:
                 ctx.ob("R5-kernel-identities[coh=1]", key, UNKNOWN, str(ex), kw)
+    # a pair's channel c is the record analysed alone: layout routing of the two-channel input (2xN, Nx2, 2x2, list)
+    from ..inputs import check_record
+    check_record(ctx, rule_s=None, rule_r="R6-channel-routing")
     table_purity(ctx)
     ctx.trust("E4 partial evaluation of __getattr__", "E5 kernel summaries (L1, L2)", "L3, L8")
     ctx.assume("exact arithmetic; generic branch (XX, YY non-zero)")
